@@ -37,11 +37,12 @@ Theorem C04_alloc_bound : forall o_corr_f o_scale o_inflate o_pw c s r v r' eff 
   In (Alloc n) eff ->
   n <= alloc_bound c.
 Proof. exact alloc_bound_final. Qed.
-(* ... and that is a FIXED bound: 1 MiB of text (+ 1 for the NUL of an extended-clipboard record; 2 GiB when
-   the application permits file transfer) or a frame buffer.  A limit raised in the source breaks this proof. *)
+(* ... and that is a FIXED bound: 1 MiB of text for the classic message and for every inflated record (+ 1 for
+   its NUL), 1 MiB + 1 KiB for the compressed message of the extended format (2 GiB when the application permits
+   file transfer), or a frame buffer.  A limit raised in the source breaks this proof. *)
 Theorem C04_alloc_bound_fixed : forall c, cfg_ok c ->
-  alloc_bound c <= (if cf_ft c then 2147483648 else 1048577) + fb_bytes c /\
-  c04_cut_text_limit <= 2 ^ 20 /\ c04_ext_clip_limit <= 2 ^ 20 + 1.
+  alloc_bound c <= (if cf_ft c then 2147483648 else 1049600) + fb_bytes c /\
+  c04_cut_text_limit <= 2 ^ 20 /\ c04_ext_clip_limit <= 2 ^ 20 + 1 /\ c04_ext_cut_msg_limit <= 2 ^ 20 + 1024.
 Proof. exact alloc_bound_fixed. Qed.
 Example C04_alloc_bound_nonvacuous :
   let c := cfg_w 4 8 false false in
